@@ -662,7 +662,8 @@ fn seq_pino(first: usize, second: usize) {
 }
 
 /// L2 history, Anchor: initialise 70, then initialise 63 BELOW it (rotate_right moves slot 70's bytes)
-// @verif prop=C13 tier=quick timeout=900 large
+/// (thorough tier: two of these 20 GB harnesses side by side exceed the 900 s cap; the quick tier keeps the Pinocchio twin, which is the live path)
+// @verif prop=C13 tier=thorough timeout=1800 large
 #[kani::proof]
 #[kani::unwind(800)]
 #[kani::stub(<[u8]>::rotate_right, model_rotate_right)]
@@ -688,7 +689,7 @@ fn c13_l2_anchor_insert_above() {
 }
 
 /// L2 history, Pinocchio: initialise 70, then initialise 63 BELOW it
-// @verif prop=C13,C12,C05 tier=quick timeout=900 large
+// @verif prop=C13,C12,C05 tier=quick timeout=1500 large
 #[kani::proof]
 #[kani::unwind(800)]
 #[kani::stub(<[u8]>::rotate_right, model_rotate_right)]
